@@ -338,7 +338,77 @@ def derived_rows(cls):
 
 
 PIN_ERRORS = {"bases": [["DataValidationError", ["DataError", "Exception"]], ["ExcessColumnsInDataError", ["DataError", "Exception"]]],
-              "stores": [["DataValidationError", "errors", "errors"], ["ExcessColumnsInDataError", "columns", "columns"]]}
+              "stores": [["DataValidationError", "errors", "errors"], ["ExcessColumnsInDataError", "columns", "columns"]],
+              "partial": []}
+
+# what the constructors of the two errors do with the offending columns while they build the message: operations that work on
+# ANY keys / names / values (total) and operations that need more of them — an order, a number, a hashable (partial)
+TOTAL_CALLS = {"str", "repr", "len", "all", "any", "isinstance", "list", "tuple", "enumerate", "zip", "format", "super", "type", "bool", "iter",
+               "getattr", "dict", "ascii", "print", "map"}
+PARTIAL_CALLS = {"sorted", "min", "max", "sum", "int", "float", "next", "ord", "chr", "hash", "abs", "round", "set", "frozenset", "bytes", "reversed",
+                 "complex", "divmod", "hex", "oct", "bin"}
+TOTAL_METHODS = {"items", "keys", "values", "get", "__init__", "format", "append", "extend", "strip", "rstrip", "lstrip", "upper", "lower", "copy"}
+PARTIAL_METHODS = {"sort", "index", "pop", "remove", "encode", "decode"}
+
+
+def _stringified(e):
+    """is every element this expression yields already a string (str(…), repr(…), an f-string, a literal)?"""
+    if isinstance(e, ast.JoinedStr) or (isinstance(e, ast.Constant) and isinstance(e.value, str)):
+        return True
+    if isinstance(e, ast.Call) and isinstance(e.func, ast.Name) and e.func.id in ("str", "repr", "ascii", "format"):
+        return True
+    return False
+
+
+def _strings_iter(e):
+    """does this expression yield strings only — whatever the offending keys / values are?"""
+    if isinstance(e, (ast.GeneratorExp, ast.ListComp, ast.SetComp)):
+        return _stringified(e.elt)
+    if isinstance(e, (ast.List, ast.Tuple, ast.Set)):
+        return all(_stringified(x) for x in e.elts)
+    if isinstance(e, ast.Call) and isinstance(e.func, ast.Name):
+        if e.func.id in ("sorted", "list", "tuple", "set", "frozenset", "reversed", "iter") and len(e.args) == 1:
+            return _strings_iter(e.args[0])
+        if e.func.id == "map" and len(e.args) == 2 and ast.unparse(e.args[0]) in ("str", "repr", "ascii"):
+            return True
+    return False
+
+
+def message_ops(init, local_total):
+    """[partial operation, …] applied in an error's constructor; raises Unrecognised for an operation of unknown kind."""
+    partial = []
+    for n in ast.walk(init):
+        if isinstance(n, ast.Call):
+            f = n.func
+            if isinstance(f, ast.Name):
+                if f.id in PARTIAL_CALLS:
+                    # ordering / hashing what was made a string first works on anything
+                    arg = n.args[0] if len(n.args) == 1 else None
+                    strings = arg is not None and _strings_iter(arg)
+                    by_str = any(k.arg == "key" and ast.unparse(k.value) in ("str", "repr") for k in n.keywords)
+                    if not (f.id in ("sorted", "min", "max", "set", "frozenset") and (strings or by_str)):
+                        partial.append(f.id)
+                elif f.id not in TOTAL_CALLS and f.id not in local_total:
+                    raise Unrecognised("call of %s" % f.id)
+            elif isinstance(f, ast.Attribute):
+                if f.attr == "join":
+                    arg = n.args[0] if len(n.args) == 1 else None
+                    if arg is None or not _strings_iter(arg):
+                        partial.append("join of elements that are not made strings first")
+                elif f.attr in PARTIAL_METHODS:
+                    partial.append("." + f.attr)
+                elif f.attr not in TOTAL_METHODS:
+                    raise Unrecognised("call of .%s" % f.attr)
+            else:
+                raise Unrecognised("call of %s" % ast.unparse(f)[:30])
+        elif isinstance(n, ast.BinOp) and isinstance(n.op, ast.Mod) and isinstance(n.left, (ast.Constant, ast.JoinedStr)):
+            partial.append("%-formatting")
+        elif isinstance(n, ast.Compare) and any(isinstance(o, (ast.Lt, ast.LtE, ast.Gt, ast.GtE)) for o in n.ops):
+            # comparing lengths is fine; comparing the offending keys / values is not
+            if not all(isinstance(x, ast.Constant) or (isinstance(x, ast.Call) and ast.unparse(x.func) == "len") or isinstance(x, ast.BinOp)
+                       for x in [n.left] + n.comparators):
+                partial.append("ordering comparison")
+    return sorted(set(partial))
 
 
 def error_classes(tree):
@@ -357,7 +427,7 @@ def error_classes(tree):
                 out.extend(bases(nm, seen + (name,)))
         return out
 
-    res = {"bases": [], "stores": []}
+    res = {"bases": [], "stores": [], "partial": []}
     for name in ("DataValidationError", "ExcessColumnsInDataError"):
         if name not in classes:
             raise Unrecognised("class %s" % name)
@@ -366,6 +436,9 @@ def error_classes(tree):
         if init is None:
             raise Unrecognised("%s.__init__" % name)
         params = {a.arg for a in init.args.args[1:]}
+        local_total = {t.id for st in init.body if isinstance(st, ast.Assign) and isinstance(st.value, ast.Lambda)
+                       for t in st.targets if isinstance(t, ast.Name)}
+        res["partial"] += [[name, op] for op in message_ops(init, local_total)]
         for st in ast.walk(init):
             if isinstance(st, ast.Assign) and len(st.targets) == 1 and isinstance(st.targets[0], ast.Attribute) \
                     and isinstance(st.targets[0].value, ast.Name) and st.targets[0].value.id == "self":
@@ -403,5 +476,7 @@ def lean_text(header, items):
     t += "def errorBases : List (String × List String) := %s\n" % lean_list(items["errors"]["bases"], lambda p: "(%s, %s)" % (lean_str(p[0]), lean_list(p[1], lean_str)))
     t += "/-- exceptions.py: (class, attribute, constructor argument kept unchanged under it) -/\n"
     t += "def errorStores : List (String × String × String) := %s\n" % lean_list(items["errors"]["stores"], lambda p: "(%s, %s, %s)" % tuple(lean_str(x) for x in p))
+    t += "/-- exceptions.py: (class, operation) for every operation a constructor applies to the offending columns that does not work\non every key / name / value (sorting, ordering, arithmetic, joining what was not made a string first) -/\n"
+    t += "def errorPartialOps : List (String × String) := %s\n" % lean_list(items["errors"].get("partial", []), lambda p: "(%s, %s)" % (lean_str(p[0]), lean_str(p[1])))
     t += "end Gen.AppendFlow\n"
     return t
